@@ -77,26 +77,26 @@ type Race struct {
 	Kind  string // "write-write" | "read-write"
 }
 
-type access struct {
+type access_ struct {
 	tid   int
 	clock uint32
 	site  string
 }
 
 type shadow struct {
-	w     access
+	w     access_
 	hasW  bool
-	reads []access // last read per thread not ordered before a later write
+	reads []access_ // last read per thread not ordered before a later write
 }
 
 type raceState struct {
-	shadow map[uintptr]*shadow
+	shadow map[shadowKey]*shadow
 	found  map[string]Race
 	keep   []unsafe.Pointer // keep instrumented objects alive so addresses are not reused
 }
 
 func newRaceState() *raceState {
-	return &raceState{shadow: map[uintptr]*shadow{}, found: map[string]Race{}}
+	return &raceState{shadow: map[shadowKey]*shadow{}, found: map[string]Race{}}
 }
 
 func (r *raceState) list() []Race {
@@ -116,7 +116,7 @@ func (r *raceState) list() []Race {
 	return out
 }
 
-func (r *raceState) report(loc string, a, b access, kind string) {
+func (r *raceState) report(loc string, a, b access_, kind string) {
 	sa, sb := a.site, b.site
 	if sb < sa {
 		sa, sb = sb, sa
@@ -127,16 +127,26 @@ func (r *raceState) report(loc string, a, b access, kind string) {
 	}
 }
 
-// Access records a memory access by the running thread. loc names the
-// location class (e.g. "Server.portListener"), site the access site
-// ("Server.portListener@close"). If the location class is in the racy set the
-// access is also a scheduling point (taken before the access).
+// Access records a memory access by the running thread (see access).
 func Access(p unsafe.Pointer, loc string, site string, write bool) {
+	access(p, 0, loc, site, write, true)
+}
+
+type shadowKey struct {
+	addr uintptr
+	sub  int
+}
+
+// access records an access to location (p, sub). loc names the location class
+// (e.g. "Server.portListener"), site the access site ("Server.portListener@close").
+// If point is set and the class is in the racy set the access is also a
+// scheduling point, taken before the access.
+func access(p unsafe.Pointer, sub int, loc string, site string, write bool, point bool) {
 	e := cur
 	if e == nil || e.aborting || e.running == nil || p == nil {
 		return
 	}
-	if e.opt.Racy != nil && e.opt.Racy[loc] {
+	if point && e.opt.Racy != nil && e.opt.Racy[loc] {
 		if write {
 			e.point("W " + site)
 		} else {
@@ -148,14 +158,14 @@ func Access(p unsafe.Pointer, loc string, site string, write bool) {
 		return
 	}
 	t := e.running
-	addr := uintptr(p)
-	sh := rs.shadow[addr]
+	key := shadowKey{uintptr(p), sub}
+	sh := rs.shadow[key]
 	if sh == nil {
 		sh = &shadow{}
-		rs.shadow[addr] = sh
+		rs.shadow[key] = sh
 		rs.keep = append(rs.keep, p)
 	}
-	me := access{tid: t.id, clock: t.vc.get(t.id), site: site}
+	me := access_{tid: t.id, clock: t.vc.get(t.id), site: site}
 	if sh.hasW && sh.w.tid != t.id && sh.w.clock > t.vc.get(sh.w.tid) {
 		k := "read-write"
 		if write {
@@ -203,4 +213,63 @@ func AccessFn(addr func() unsafe.Pointer, loc string, site string, write bool) {
 
 func (r Race) String() string {
 	return fmt.Sprintf("%s: %s ⟂ %s (%s)", r.Loc, r.SiteA, r.SiteB, r.Kind)
+}
+
+// R records a read of *p and returns p (expression-level instrumentation).
+func R[T any](p *T, loc, site string) *T {
+	if cur != nil {
+		access(unsafe.Pointer(p), 0, loc, site, false, true)
+	}
+	return p
+}
+
+// RM records a read of the map-typed field *p and of the map's contents.
+func RM[T any](p *T, loc, site string) *T {
+	if cur != nil {
+		access(unsafe.Pointer(p), 0, loc, site, false, true)
+		access(unsafe.Pointer(p), 1, loc+"[]", loc+"[]@"+siteFunc(site), false, false)
+	}
+	return p
+}
+
+// RMs records a read of the contents of the map held by field *p (statement form).
+func RMs[T any](p *T, loc, site string) {
+	if cur != nil {
+		access(unsafe.Pointer(p), 1, loc, site, false, true)
+	}
+}
+
+// Pre is placed before a statement that stores to loc: a scheduling point when
+// loc is in the racy set.
+func Pre(loc, site string) {
+	e := cur
+	if e == nil || e.aborting || e.running == nil {
+		return
+	}
+	if e.opt.Racy != nil && e.opt.Racy[loc] {
+		e.point("W " + site)
+	}
+}
+
+// W records a store to *p; it is placed after the storing statement.
+func W[T any](p *T, loc, site string) {
+	if cur != nil {
+		access(unsafe.Pointer(p), 0, loc, site, true, false)
+	}
+}
+
+// WM records a store into the contents of the map held by field *p.
+func WM[T any](p *T, loc, site string) {
+	if cur != nil {
+		access(unsafe.Pointer(p), 1, loc, site, true, false)
+	}
+}
+
+func siteFunc(site string) string {
+	for i := len(site) - 1; i >= 0; i-- {
+		if site[i] == '@' {
+			return site[i+1:]
+		}
+	}
+	return site
 }
